@@ -264,7 +264,12 @@ EmitMove:
           uint32_t alt_id = wd._phys_to_var_id[out_id];
           Var& alt_var = ctx._vars[alt_id];
 
-          if (!alt_var.out.is_initialized() || (alt_var.out.is_reg() && alt_var.out.reg_id() == cur_id)) {
+          // If the previous pass did nothing and this pass nothing so far, all the remaining arguments form cycles of
+          // three or more registers (A->B->C->A). Such cycle is broken the same way as a cycle of two (a swap) - either
+          // by swapping the argument with the one that occupies its destination or by moving it to a scratch register.
+          bool break_cycle = (work_flags & (kWorkDidSome | kWorkPostponed)) == kWorkPostponed;
+
+          if (!alt_var.out.is_initialized() || (alt_var.out.is_reg() && alt_var.out.reg_id() == cur_id) || break_cycle) {
             // Only few architectures provide swap operations, and only for few register groups.
             if (arch_traits.has_inst_reg_swap(cur_group)) {
               RegType highest_type = Support::max(cur.reg_type(), alt_var.cur.reg_type());
@@ -288,7 +293,7 @@ EmitMove:
               }
               var.mark_done();
 
-              if (alt_var.out.is_initialized()) {
+              if (alt_var.out.is_reg() && alt_var.out.reg_id() == cur_id) {
                 if (is_int_extension_required(alt_var.out.type_id(), alt_var.cur.type_id())) {
                   ASMJIT_PROPAGATE(
                     emit_arg_move(
